@@ -625,8 +625,27 @@ class Ops(SeriesOps):
         return g
 
     # -- concat / melt
+    def concat_columns(self, frames: List[Any], kw, node) -> Any:
+        """pd.concat(axis=1, keys=[...]): index-aligned column-wise concat, columns named key<US>col"""
+        keys = kw.get("keys")
+        how = kw.get("join", "outer")
+        fs = [f.derive() for f in frames]
+        if not (isinstance(keys, list) and len(keys) == len(fs) and all(isinstance(k, str) for k in keys)) or any(f.colnames() is None for f in fs):
+            return Frame(("opaque-concat1", self.I.new_id()))
+        base = ("concat1", how, tuple(f.ctx() for f in fs), tuple(self.index_term(f) for f in fs))
+        g = Frame(base, known=[])
+        for i, (k, f) in enumerate(zip(keys, fs)):
+            for c in f.colnames():
+                t = ("c1col", base, i, f.col(c))
+                g.setcol(f"{k}\x1f{c}", ("nullable", t) if how == "outer" else t)
+        g.index = ("c1index", base)
+        self.log("concat-columns", node, how=how, keys=keys, parts=[f.ctx() for f in fs], index_terms=[self.index_term(f) for f in fs], dst=g.obj)
+        return g
+
     def concat(self, frames: List[Any], kw, node) -> Any:
         axis = kw.get("axis", 0)
+        if axis in (1, "columns") and all(isinstance(fr, Frame) for fr in frames):
+            return self.concat_columns(frames, kw, node)
         parts = []
         for fr in frames:
             if isinstance(fr, Each):
